@@ -94,6 +94,28 @@ def callInner (cfg : CallCfg) (st : ClientState) (e : Entry) (arrivals : List Fr
           | none => st
         { inner := .ret (some resp), log := r.log, tEnd := r.tEnd, st := st' }
 
+/-! ### the body shared by every client method (used for the service families that are not `Entry` constructors) -/
+
+/-- what a client method hands back: a value (or `None`), or an exception -/
+inductive CallOut (α : Type) where
+  | ret (v : Option α)
+  | exc (e : PyErr)
+
+/-- returned, or raised one of the documented outcomes -/
+def CallOut.Documented {α : Type} : CallOut α → Prop
+  | .ret _ => True
+  | .exc e => e.documented = true
+
+/-- the undecorated body every client method shares once its request is built: `send_request`, `None` passed on, otherwise the
+    method's own interpretation and checks on the reply data -/
+def callWith {α : Type} (cfg : SendCfg) (st : ClientState) (req : Request) (post : Bytes → Py α) (arr : List Frame) : CallOut α :=
+  match (sendRequest cfg st req none arr).outcome with
+  | .none => .ret none
+  | .raised e _ _ => .exc e
+  | .resp r => match post r.data with
+    | .ok v => .ret (some v)
+    | .error e => .exc e
+
 /-- how the configured security algorithm is invoked: which of `seed`, `level`, `params` it receives
     (by reflection on its signature; an opaque callable gets all three) -/
 structure AlgoCall where
